@@ -132,37 +132,50 @@ theorem sections_sliceP (m : AbstractModel) (p : Placement) :
       length_encModelDataP m p _ 0]
 
 theorem length_lodSectionsP (m : AbstractModel) (p : Placement) (i : Nat) :
-    (p.vsec i ++ indexSection (m.lods.getD i default)).length = secSizeP m p i := by
-  rw [List.length_append, length_indexSection, secSizeP]
+    (lodBytesP m p i).length = secSizeP m p i := by
+  simp only [lodBytesP, List.length_append, length_indexSection, secSizeP]
 
-/-- the two sections of LOD `i` -/
+/-- the bytes of LOD `i` -/
 theorem lod_sliceP (m : AbstractModel) (p : Placement) (i : Nat) (l : ALod)
     (hl : m.lods[i]? = some l) :
-    IsSlice (encodeMdlP m p) (secOffP m p (dataStartP m p) i) (p.vsec i ++ indexSection l) := by
-  have h := IsSlice.flatMap (fun i => p.vsec i ++ indexSection (m.lods.getD i default))
+    IsSlice (encodeMdlP m p) (secOffP m p (dataStartP m p) i)
+      (p.vgap i ++ (p.vsec i ++ (p.igap i ++ indexSection l))) := by
+  have h := IsSlice.flatMap (lodBytesP m p)
     (secSizeP m p) (length_lodSectionsP m p) (List.range m.lods.length) _ i i (sections_sliceP m p)
     (List.getElem?_range (lt_of_getElem? hl))
-  simp only [getD_of_getElem? _ hl] at h
+  simp only [lodBytesP, getD_of_getElem? _ hl] at h
   exact h
+
+/-- the vertex section of LOD `i` -/
+theorem vsec_sliceP (m : AbstractModel) (p : Placement) (i : Nat) (l : ALod)
+    (hl : m.lods[i]? = some l) :
+    IsSlice (encodeMdlP m p) (vOffP m p (dataStartP m p) i) (p.vsec i) :=
+  (lod_sliceP m p i l hl).right.left
+
+/-- the index section of LOD `i` -/
+theorem isec_sliceP (m : AbstractModel) (p : Placement) (i : Nat) (l : ALod)
+    (hl : m.lods[i]? = some l) :
+    IsSlice (encodeMdlP m p) (iOffP m p (dataStartP m p) i) (indexSection l) :=
+  (lod_sliceP m p i l hl).right.right.right
 
 /-- file offset of stream `j` of mesh `d` of LOD `i` -/
 def streamAddrP (m : AbstractModel) (p : Placement) (i d j : Nat) : Nat :=
-  secOffP m p (dataStartP m p) i + p.off (psum meshCountOf m.lods i + d) j
+  vOffP m p (dataStartP m p) i + p.off (psum meshCountOf m.lods i + d) j
 
 /-- stream `j` of mesh `d` of LOD `i` -/
 theorem stream_sliceP (m : AbstractModel) (p : Placement) (hp : PlacedOk m p = true) (i : Nat)
     (l : ALod) (hl : m.lods[i]? = some l) (d : Nat) (mesh : AMesh) (hm : l.meshes[d]? = some mesh)
     (j : Nat) (s : AStream) (hs : mesh.streams[j]? = some s) :
     IsSlice (encodeMdlP m p) (streamAddrP m p i d j) s.data :=
-  (lod_sliceP m p i l hl).left.trans (placedAt_slice (placed_stream m p hp hl hm hs))
+  (vsec_sliceP m p i l hl).trans (placedAt_slice (placed_stream m p hp hl hm hs))
 
 /-- the index bytes of mesh `d` of LOD `i` -/
 theorem index_sliceP (m : AbstractModel) (p : Placement) (i : Nat) (l : ALod)
     (hl : m.lods[i]? = some l) (d : Nat) (mesh : AMesh) (hm : l.meshes[d]? = some mesh) :
     IsSlice (encodeMdlP m p)
-      (secOffP m p (dataStartP m p) i + (p.vsec i).length + 2 * psum meshIndexWords l.meshes d)
+      (iOffP m p (dataStartP m p) i + 2 * psum meshIndexWords l.meshes d)
       (meshIndexBytes mesh) := by
-  have h1 := (lod_sliceP m p i l hl).right
+  have h1 := isec_sliceP m p i l hl
   have h2 := IsSlice.flatMap meshIndexBytes (fun x => 2 * meshIndexWords x)
     length_meshIndexBytes l.meshes _ d mesh h1 hm
   rw [psum_two_mul] at h2
@@ -205,12 +218,12 @@ theorem element_address'P (m : AbstractModel) (p : Placement) (h : WFP m p = tru
   have hmul := mul_succ_le (st := s.stride.toNat) hk
   have hvc := mesh.vertexCount.toNat_lt
   have hk16 : k.toUInt16.toNat = k := toUInt16_toNat k (by omega)
-  have hA : (secOffP m p (dataStartP m p) i).toUInt32.toNat = secOffP m p (dataStartP m p) i :=
+  have hA : (vOffP m p (dataStartP m p) i).toUInt32.toNat = vOffP m p (dataStartP m p) i :=
     toUInt32_toNat _ (by unfold streamAddrP at hlt; omega)
   have hB : (p.off (psum meshCountOf m.lods i + d) e.stream.toNat).toUInt32.toNat =
       p.off (psum meshCountOf m.lods i + d) e.stream.toNat :=
     toUInt32_toNat _ (by unfold streamAddrP at hlt; omega)
-  have hlodv : (lodRowPOf m p i).vertexDataOffset = (secOffP m p (dataStartP m p) i).toUInt32 := rfl
+  have hlodv : (lodRowPOf m p i).vertexDataOffset = (vOffP m p (dataStartP m p) i).toUInt32 := rfl
   have hro : (meshRowPOf m p i l d mesh).vertexBufferOffsets.get? e.stream.toNat =
       some (p.off (psum meshCountOf m.lods i + d) e.stream.toNat).toUInt32 :=
     row_offsetsP _ _ _ h3
@@ -232,7 +245,7 @@ theorem element_addressP (m : AbstractModel) (p : Placement) (h : WFP m p = true
     (e : VertexElement) (he : e ∈ mesh.decl) (s : AStream)
     (hs : mesh.streams[e.stream.toNat]? = some s) (k : Nat) (hk : k < mesh.vertexCount.toNat) :
     ∃ a, elementAddress lod row e k.toUInt16 = .ok a ∧
-      a.toNat = secOffP m p (dataStartP m p) i + p.off (meshBase m i + d) e.stream.toNat +
+      a.toNat = vOffP m p (dataStartP m p) i + p.off (meshBase m i + d) e.stream.toNat +
         e.offset.toNat + s.stride.toNat * k ∧
       ∀ n, e.offset.toNat + n ≤ s.stride.toNat →
         readAt (encodeMdlP m p).toArray a.toNat n =
@@ -294,7 +307,7 @@ theorem lods_rows_lengthP (m : AbstractModel) (p : Placement) (h : WF m = true) 
 theorem header_indexOffsetP (m : AbstractModel) (p : Placement) (h : WF m = true) (i : Nat)
     (hi : i < m.lods.length) :
     (fileHeaderP m p).indexOffsets.get? i =
-      some (secOffP m p (dataStartP m p) i + (p.vsec i).length).toUInt32 := by
+      some (iOffP m p (dataStartP m p) i).toUInt32 := by
   have hi3 : i < 3 := by have := (wf_facts m h).lods3; omega
   show (Arr3.ofList 0 ((modelDataP m p).lods.map (·.indexDataOffset))).get? i = _
   rw [Arr3.get?_ofList _ _ i (by rw [List.length_map, lods_rows_lengthP m p h]; exact hi3) hi3,
@@ -318,8 +331,8 @@ theorem index_readP (m : AbstractModel) (p : Placement) (h : WFP m p = true) (i 
     toUInt32_toNat _ (by omega)
   have hc : (meshRowPOf m p i l d mesh).indexCount.toNat = mesh.indices.length :=
     toUInt32_toNat _ (by omega)
-  have ho : (secOffP m p (dataStartP m p) i + (p.vsec i).length).toUInt32.toNat =
-      secOffP m p (dataStartP m p) i + (p.vsec i).length := toUInt32_toNat _ (by omega)
+  have ho : (iOffP m p (dataStartP m p) i).toUInt32.toNat =
+      iOffP m p (dataStartP m p) i := toUInt32_toNat _ (by omega)
   refine ⟨_, header_indexOffsetP m p W.wf i (lt_of_getElem? hl), by rw [hs, ho]; omega, hc, ?_⟩
   rw [hs, ho]
   have := hsl.left.readAt 0 (2 * mesh.indices.length) (by rw [length_flatMap_putU16le]; omega)
@@ -345,17 +358,17 @@ theorem stream_chunkP (m : AbstractModel) (p : Placement) (h : WFP m p = true) (
   have hmul := mul_succ_le (st := s.stride.toNat) hz
   have hvc := mesh.vertexCount.toNat_lt
   have hz32 : z.toUInt32.toNat = z := toUInt32_toNat z (by omega)
-  have hA : (secOffP m p (dataStartP m p) i).toUInt32.toNat = secOffP m p (dataStartP m p) i :=
+  have hA : (vOffP m p (dataStartP m p) i).toUInt32.toNat = vOffP m p (dataStartP m p) i :=
     toUInt32_toNat _ (by unfold streamAddrP at hlt; omega)
   have hB : (p.off (psum meshCountOf m.lods i + d) j).toUInt32.toNat =
       p.off (psum meshCountOf m.lods i + d) j :=
     toUInt32_toNat _ (by unfold streamAddrP at hlt; omega)
-  have hlodv : (lodRowPOf m p i).vertexDataOffset = (secOffP m p (dataStartP m p) i).toUInt32 := rfl
+  have hlodv : (lodRowPOf m p i).vertexDataOffset = (vOffP m p (dataStartP m p) i).toUInt32 := rfl
   have hro : (meshRowPOf m p i l d mesh).vertexBufferOffsets.get? j =
       some (p.off (psum meshCountOf m.lods i + d) j).toUInt32 := row_offsetsP _ _ _ h3
   have hzs : z.toUInt32.toNat * s.stride.toUInt32.toNat = s.stride.toNat * z := by
     rw [hz32, UInt8.toNat_toUInt32, Nat.mul_comm]
-  have h1 := toNat_add32 (secOffP m p (dataStartP m p) i).toUInt32
+  have h1 := toNat_add32 (vOffP m p (dataStartP m p) i).toUInt32
     (p.off (psum meshCountOf m.lods i + d) j).toUInt32
     (by rw [hA, hB]; unfold streamAddrP at hlt; omega)
   have h2 := toNat_mul32 z.toUInt32 s.stride.toUInt32 (by rw [hzs]; omega)
@@ -364,7 +377,7 @@ theorem stream_chunkP (m : AbstractModel) (p : Placement) (h : WFP m p = true) (
     mulU32_ok _ _ (by rw [hzs]; omega), R.ok_bind,
     addU32_ok _ _ (by rw [h1, h2, hA, hB, hzs]; unfold streamAddrP at hlt; omega), R.ok_bind,
     toNat_add32 _ _ (by rw [h1, h2, hA, hB, hzs]; unfold streamAddrP at hlt; omega), h1, h2, hA, hB, hzs,
-    show secOffP m p (dataStartP m p) i + p.off (psum meshCountOf m.lods i + d) j +
+    show vOffP m p (dataStartP m p) i + p.off (psum meshCountOf m.lods i + d) j +
       s.stride.toNat * z = streamAddrP m p i d j + z * s.stride.toNat by
         unfold streamAddrP; rw [Nat.mul_comm z],
     hsl.readAt _ _ (by rw [hdl, Nat.mul_comm z]; omega)]
@@ -570,9 +583,17 @@ theorem canon_vsec (m : AbstractModel) (i : Nat) :
   rw [List.getD_eq_getElem?_getD, List.getD_eq_getElem?_getD, List.getElem?_map]
   cases m.lods[i]? <;> rfl
 
+theorem canon_vgap (m : AbstractModel) (i : Nat) : (canonP m).vgap i = [] := by
+  simp [Placement.vgap, canonP]
+
+theorem canon_igap (m : AbstractModel) (i : Nat) : (canonP m).igap i = [] := by
+  simp [Placement.igap, canonP]
+
 theorem canon_secSize (m : AbstractModel) (k : Nat) (x : ALod) (h : m.lods[k]? = some x) :
     secSizeP m (canonP m) k = lodSize x := by
-  rw [secSizeP, canon_vsec, getD_of_getElem? _ h, length_vertexSection, lodSize]
+  rw [secSizeP, canon_vsec, canon_vgap, canon_igap, getD_of_getElem? _ h, length_vertexSection,
+    lodSize]
+  simp
 
 theorem lodRowsP_canon (m : AbstractModel) (ds : Nat) :
     lodRowsP m (canonP m) ds = lodRows 0 ds m.lods := by
@@ -587,8 +608,8 @@ theorem lodRowsP_canon (m : AbstractModel) (ds : Nat) :
     rw [lodRows_getElem? _ i 0 ds l hl]
     simp only [lodRowsP, List.getElem?_map, List.getElem?_range hi, Option.map_some]
     congr 1
-    simp only [lodRowP, lodRow, canon_vsec, getD_of_getElem? _ hl, length_vertexSection, hoff,
-      Nat.zero_add]
+    simp only [lodRowP, lodRow, vOffP, iOffP, canon_vsec, canon_vgap, canon_igap,
+      getD_of_getElem? _ hl, length_vertexSection, hoff, Nat.zero_add, List.length_nil, Nat.add_zero]
     rfl
   · rw [List.getElem?_eq_none (by rw [length_lodRowsP]; omega),
       List.getElem?_eq_none (by rw [length_lodRows]; omega)]
@@ -620,7 +641,11 @@ theorem modelDataAtP_canon (m : AbstractModel) (ds : Nat) :
 
 theorem sectionsP_canon (m : AbstractModel) : sectionsP m (canonP m) = sections m := by
   unfold sectionsP sections
-  simp only [canon_vsec]
+  have : lodBytesP m (canonP m) =
+      fun i => (fun l => vertexSection l ++ indexSection l) (m.lods.getD i default) := by
+    funext i
+    simp only [lodBytesP, canon_vsec, canon_vgap, canon_igap, List.nil_append]
+  rw [this]
   exact range_flatMap_getD (fun l => vertexSection l ++ indexSection l) m.lods
 
 /-- the placed encoder generalises `encodeMdl`: on the back-to-back placement they coincide -/
@@ -634,5 +659,76 @@ theorem encodeMdlP_canon (m : AbstractModel) : encodeMdlP m (canonP m) = encodeM
     unfold fileHeaderP; simp only [hmd, hr]; rfl
   unfold encodeMdlP encodeMdl
   rw [hfh, hmd, sectionsP_canon]
+
+/-! ### the back-to-back placement is a placement: `WF m → WFP m (canonP m)` -/
+
+theorem IsSlice.placedAt {vsec : Bytes} {off : Nat} {data : Bytes} (h : IsSlice vsec off data) :
+    placedAt vsec off data = true := by
+  obtain ⟨pre, post, e, hl⟩ := h
+  subst hl
+  simp only [Spec.Mdl.placedAt, Bool.and_eq_true, decide_eq_true_eq, beq_iff_eq]
+  refine ⟨by rw [e]; simp, ?_⟩
+  rw [e, List.drop_left, List.take_left]
+
+theorem IsSlice.refl (b : Bytes) : IsSlice b 0 b := ⟨[], [], by simp, rfl⟩
+
+/-- stream `j` of mesh `d` inside the vertex section of its LOD -/
+theorem stream_in_vertexSection (l : ALod) (d : Nat) (mesh : AMesh) (hm : l.meshes[d]? = some mesh)
+    (j : Nat) (s : AStream) (hs : mesh.streams[j]? = some s) :
+    IsSlice (vertexSection l) (psum streamSize l.meshes d + psum dataLen mesh.streams j) s.data := by
+  have h2 := IsSlice.flatMap (fun (x : AMesh) => x.streams.flatMap (·.data)) streamSize
+    length_meshStreams l.meshes 0 d mesh (IsSlice.refl _) hm
+  have h3 := IsSlice.flatMap (fun (s : AStream) => s.data) dataLen (fun _ => rfl) mesh.streams _ j s h2 hs
+  rw [Nat.zero_add] at h3
+  exact h3
+
+theorem canon_off (m : AbstractModel) (h : WF m = true) (i : Nat) (l : ALod)
+    (hl : m.lods[i]? = some l) (d : Nat) (mesh : AMesh) (hm : l.meshes[d]? = some mesh)
+    (j : Nat) (s : AStream) (hs : mesh.streams[j]? = some s) :
+    (canonP m).off (psum meshCountOf m.lods i + d) j =
+      psum streamSize l.meshes d + psum dataLen mesh.streams j := by
+  obtain ⟨h3, _, hlt, _⟩ := stream_bounds m h i l hl d mesh hm j s hs
+  have hrow := meshes_row m i l hl d mesh hm
+  change (allMeshRows 0 m.lods)[psum meshCountOf m.lods i + d]? = _ at hrow
+  have ho := row_offsets m i l d mesh j (lt_of_getElem? hs) h3
+  have e1 : (canonP m).offs.getD (psum meshCountOf m.lods i + d) [] =
+      (meshRowOf m i l d mesh).vertexBufferOffsets.toList.map (·.toNat) := by
+    show ((allMeshRows 0 m.lods).map _).getD _ [] = _
+    rw [List.getD_eq_getElem?_getD, List.getElem?_map, hrow]
+    rfl
+  have e2 : ∀ (a : Arr3 UInt32) (v : UInt32), a.get? j = some v →
+      (a.toList.map (·.toNat)).getD j 0 = v.toNat := by
+    intro a v hv
+    rcases j with _ | _ | _ | j
+    · simp only [Arr3.get?, Option.some.injEq] at hv; subst hv; rfl
+    · simp only [Arr3.get?, Option.some.injEq] at hv; subst hv; rfl
+    · simp only [Arr3.get?, Option.some.injEq] at hv; subst hv; rfl
+    · omega
+  show ((canonP m).offs.getD _ []).getD j 0 = _
+  rw [e1, e2 _ _ ho]
+  exact toUInt32_toNat _ (by unfold streamAddr at hlt; omega)
+
+theorem placedOk_canon (m : AbstractModel) (h : WF m = true) : PlacedOk m (canonP m) = true := by
+  simp only [PlacedOk, List.all_eq_true, List.mem_range]
+  intro i hi d hd j hj
+  have hl : m.lods[i]? = some m.lods[i] := List.getElem?_eq_getElem hi
+  rw [getD_of_getElem? _ hl] at hd hj ⊢
+  generalize m.lods[i] = l at hl hd hj
+  have hm : l.meshes[d]? = some l.meshes[d] := List.getElem?_eq_getElem hd
+  rw [getD_of_getElem? _ hm] at hj ⊢
+  generalize l.meshes[d] = mesh at hm hj
+  have hs : mesh.streams[j]? = some mesh.streams[j] := List.getElem?_eq_getElem hj
+  rw [getD_of_getElem? _ hs]
+  generalize mesh.streams[j] = s at hs
+  rw [canon_vsec, getD_of_getElem? _ hl]
+  have := canon_off m h i l hl d mesh hm j s hs
+  rw [show meshBase m i = psum meshCountOf m.lods i from rfl, this]
+  exact (stream_in_vertexSection l d mesh hm j s hs).placedAt
+
+/-- every well-formed model with its back-to-back placement is in the quantifier of the placed
+theorems: `parse_encode` is the instance `p = canonP m` of `parse_encodeP` -/
+theorem wfp_canon (m : AbstractModel) (h : WF m = true) : WFP m (canonP m) = true := by
+  simp only [WFP, Bool.and_eq_true, decide_eq_true_eq]
+  exact ⟨⟨h, placedOk_canon m h⟩, by rw [encodeMdlP_canon]; exact (wf_facts m h).fileLen⟩
 
 end Physis.Mdl
